@@ -795,4 +795,113 @@ theorem T_C20_link (tol : Rat) (pts : List V3) (leader follower : V3) :
             exact Bool.noConfusion hnq
           simp [hne]
 
+/-! ### grading / back-porting before assembly: all histories of `Mesh` calls -/
+
+/-- state after a history given most-recent-first -/
+def stateRev : List MeshOp → MeshSt
+  | [] => {}
+  | op :: older => (meshStep (stateRev older) op).2
+
+/-- "is the mesh assembled?" read off the history alone, looking back from now: the most recent `clear` or
+    `assemble` decides — after a `clear` it is not; after an `assemble` it is iff it already was or something had
+    been added before; `add`, `grade`, `backport` do not change it -/
+def assembledSpec : List MeshOp → Bool
+  | [] => false
+  | .clear :: _ => false
+  | .assemble :: older => assembledSpec older || older.contains .add
+  | _ :: older => assembledSpec older
+
+theorem stateRev_depot (r : List MeshOp) : 0 < (stateRev r).depot ↔ MeshOp.add ∈ r := by
+  induction r with
+  | nil => simp [stateRev]
+  | cons op older ih =>
+      cases op with
+      | add => simp [stateRev, meshStep]
+      | assemble => simp [stateRev, meshStep, ih]
+      | clear => simp [stateRev, meshStep, ih]
+      | grade => simp [stateRev, meshStep, ih]
+      | backport =>
+          simp only [stateRev, meshStep]
+          split <;> simp [ih]
+
+theorem stateRev_assembled (r : List MeshOp) :
+    (stateRev r).assembled = assembledSpec r ∧ ((stateRev r).assembled = true → 0 < (stateRev r).depot) := by
+  induction r with
+  | nil => exact ⟨rfl, by simp [stateRev]⟩
+  | cons op older ih =>
+      obtain ⟨ih1, ih2⟩ := ih
+      have hd : decide (0 < (stateRev older).depot) = older.contains MeshOp.add := by
+        simp [stateRev_depot older]
+      cases op with
+      | add => simp only [stateRev, meshStep, assembledSpec]; exact ⟨ih1, fun h => by have := ih2 h; omega⟩
+      | assemble =>
+          simp only [stateRev, meshStep, assembledSpec]
+          refine ⟨by rw [ih1, hd], ?_⟩
+          intro h
+          simp only [Bool.or_eq_true, decide_eq_true_eq] at h
+          rcases h with h | h
+          · exact ih2 h
+          · exact h
+      | clear => simp [stateRev, meshStep, assembledSpec]
+      | grade => simp only [stateRev, meshStep, assembledSpec]; exact ⟨ih1, ih2⟩
+      | backport =>
+          simp only [stateRev, meshStep, assembledSpec]
+          by_cases ha : (stateRev older).assembled = true
+          · have hpos := ih2 ha
+            simp only [ha, if_true]
+            refine ⟨?_, fun _ => hpos⟩
+            rw [← ih1, ha]; simp [hpos]
+          · have ha' : (stateRev older).assembled = false := by simpa using ha
+            simp only [ha', Bool.false_eq_true, if_false]
+            exact ⟨by rw [← ih1, ha'], fun h => absurd h (by simp [ha'])⟩
+
+def meshFold : MeshSt → List MeshOp → MeshSt
+  | s, [] => s
+  | s, op :: ops => meshFold (meshStep s op).2 ops
+
+theorem meshRun_append (s : MeshSt) (a b : List MeshOp) :
+    meshRun s (a ++ b) = meshRun s a ++ meshRun (meshFold s a) b := by
+  induction a generalizing s with
+  | nil => rfl
+  | cons op a ih => simp [meshRun, meshFold, ih]
+
+theorem meshRun_length (s : MeshSt) (a : List MeshOp) : (meshRun s a).length = a.length := by
+  induction a generalizing s with
+  | nil => rfl
+  | cons op a ih => simp [meshRun, ih]
+
+theorem meshFold_stateRev (r a : List MeshOp) : meshFold (stateRev r) a = stateRev (a.reverse ++ r) := by
+  induction a generalizing r with
+  | nil => rfl
+  | cons op a ih =>
+      have : meshFold (stateRev r) (op :: a) = meshFold (stateRev (op :: r)) a := rfl
+      rw [this, ih]
+      simp [List.reverse_cons, List.append_assoc]
+
+theorem meshFold_eq_stateRev (a : List MeshOp) : meshFold {} a = stateRev a.reverse := by
+  have := meshFold_stateRev [] a
+  simpa [stateRev] using this
+
+/-- **`grade()` and `backport()` are rejected (RuntimeError) exactly when the mesh is not assembled**, at any
+    point of any history of add / assemble / clear / grade / backport calls; "assembled" is the history predicate
+    `assembledSpec` above. -/
+theorem T_C20_mesh_guard (before after : List MeshOp) (op : MeshOp) (hop : op = .grade ∨ op = .backport) :
+    (meshRun {} (before ++ op :: after))[before.length]? =
+      some (if assembledSpec before.reverse then .accept else .reject "RuntimeError") := by
+  rw [meshRun_append, List.getElem?_append_right (by rw [meshRun_length]), meshRun_length,
+    Nat.sub_self, meshFold_eq_stateRev]
+  have h := (stateRev_assembled before.reverse).1
+  rcases hop with rfl | rfl
+  · simp only [meshRun, meshStep, List.getElem?_cons_zero, h]
+  · simp only [meshRun, meshStep, List.getElem?_cons_zero, h]
+    cases assembledSpec before.reverse <;> simp
+
+/-- all other calls of the history are always accepted -/
+theorem T_C20_mesh_others (s : MeshSt) (op : MeshOp) (h : op = .add ∨ op = .assemble ∨ op = .clear) :
+    (meshStep s op).1 = .accept := by
+  rcases h with rfl | rfl | rfl <;> rfl
+
+example : assembledSpec [MeshOp.grade, .assemble, .add].reverse.reverse = true ∧
+    assembledSpec [MeshOp.clear, .assemble, .add] = false ∧ assembledSpec [MeshOp.assemble] = false := by decide
+
 end CBV.C20
